@@ -1,6 +1,7 @@
 import NrDaemon.Lemmas.Metrics
 import NrDaemon.Model.Rules
 import NrDaemon.Props.Tied
+import NrDaemon.Model.Regex
 /-!
   C07 — metric aggregation is order-independent and rename rules are applied faithfully.
 
@@ -278,3 +279,85 @@ metrics.go on this run, for all pairs of values (so the commutativity / associat
 the function the daemon runs). -/
 theorem C07_aggregate_tied (d s : MData) : Gen.Decisions.aggregate d.toGen s.toGen = (d.agg s).toGen :=
   tied_aggregate d s
+
+/-! ## The rule chain over regular expressions (`Model/Regex.lean`)
+
+The same statements for rules whose expressions are regular expressions with groups and whose replacements use
+back-references — the chain logic does not depend on what an expression is. -/
+
+/-- **C07 (evaluation order, regex rules).** -/
+theorem C07_rx_rules_sorted (rs : List RuleX) :
+    (rs.foldr insertByOrderX []).Pairwise (fun a b => a.order ≤ b.order) := by
+  have ins : ∀ (r : RuleX) (l : List RuleX), l.Pairwise (fun a b => a.order ≤ b.order) →
+      (insertByOrderX r l).Pairwise (fun a b => a.order ≤ b.order) ∧ (∀ x ∈ insertByOrderX r l, x = r ∨ x ∈ l) := by
+    intro r l
+    induction l with
+    | nil => intro _; simp [insertByOrderX]
+    | cons x xs ih =>
+      intro h
+      have hx := List.pairwise_cons.mp h
+      simp only [insertByOrderX]
+      split
+      · rename_i hlt
+        refine ⟨List.pairwise_cons.mpr ⟨?_, h⟩, fun y hy => by simpa using hy⟩
+        intro y hy
+        rcases List.mem_cons.mp hy with rfl | hy
+        · omega
+        · have := hx.1 y hy; omega
+      · rename_i hge
+        obtain ⟨h1, h2⟩ := ih hx.2
+        refine ⟨List.pairwise_cons.mpr ⟨?_, h1⟩, ?_⟩
+        · intro y hy
+          rcases h2 y hy with rfl | hy
+          · omega
+          · exact hx.1 y hy
+        · intro y hy
+          rcases List.mem_cons.mp hy with rfl | hy
+          · exact Or.inr (by simp)
+          · rcases h2 y hy with rfl | hy
+            · exact Or.inl rfl
+            · exact Or.inr (by simp [hy])
+  induction rs with
+  | nil => simp
+  | cons r rs ih => exact (ins r _ ih).1
+
+/-- **C07 (terminate_chain / continue / unmatched skipped / ignore, regex rules).** -/
+theorem C07_rx_chain (r : RuleX) (rest : List RuleX) (s out : Str) (m : Bool) :
+    (applyRuleX r s = (.matched, out) → r.terminate = true → applyChainX (r :: rest) s m = (.matched, out)) ∧
+    (applyRuleX r s = (.matched, out) → r.terminate = false → applyChainX (r :: rest) s m = applyChainX rest out true) ∧
+    (applyRuleX r s = (.unmatched, out) → applyChainX (r :: rest) s m = applyChainX rest out m) ∧
+    (applyRuleX r s = (.ignore, out) → applyChainX (r :: rest) s m = (.ignore, [])) := by
+  refine ⟨?_, ?_, ?_, ?_⟩ <;> intro h <;> simp [applyChainX, h] <;> intro ht <;> simp [ht]
+
+/-- **C07 (each_segment, regex rules): matched iff ANY segment matched.** -/
+theorem C07_rx_each_segment (r : RuleX) (s : Str) (hi : r.ignore = false) (ha : r.replaceAll = false) (he : r.eachSegment = true) :
+    (applyRuleX r s).2 = joinSlash ((splitSlash s).map (fun seg => (replaceFirstX r seg).2)) ∧
+    ((applyRuleX r s).1 = .matched ↔ ∃ seg ∈ splitSlash s, (replaceFirstX r seg).1 = .matched) := by
+  simp only [applyRuleX, hi, ha, he, Bool.false_eq_true, if_false, if_true]
+  refine ⟨by simp [List.map_map, Function.comp_def], ?_⟩
+  constructor
+  · intro h
+    split at h
+    · rename_i hany
+      simp only [List.any_eq_true, List.mem_map] at hany
+      obtain ⟨x, ⟨seg, hseg, rfl⟩, hx⟩ := hany
+      exact ⟨seg, hseg, by simpa using hx⟩
+    · cases h
+  · intro ⟨seg, hseg, hm⟩
+    have : ((splitSlash s).map (replaceFirstX r)).any (·.1 == .matched) = true := by
+      simp only [List.any_eq_true, List.mem_map]
+      exact ⟨replaceFirstX r seg, ⟨seg, hseg, rfl⟩, by simp [hm]⟩
+    simp [this]
+
+/-- **C07 (a rule that cannot be transformed is left out, the others keep their order).** -/
+theorem C07_rx_ambiguous_dropped (rs : List RuleX) (s : Str) :
+    applyRulesX rs s = applyRulesX (rs.filter (fun r => !ambiguousReplacement r.repl)) s := by
+  simp [applyRulesX, List.filter_filter]
+
+/-- back-references: `\\1` becomes `${1}`, `\\\\1` makes the rule ambiguous; worked instances of both models agreeing on a
+literal expression, and of a back-reference (`(a)(b)` → `\\2\\1`) -/
+example : transformReplacement 10 ['x', '\\', '1', 'y'] = ['x', '$', '{', '1', '}', 'y'] := by decide
+example : ambiguousReplacement ['x', '\\', '\\', '1'] = true ∧ ambiguousReplacement ['x', '\\', '1'] = false := by decide
+-- (evaluation, not proof: the kernel does not reduce `Array.extract`)
+#guard (applyRulesX [{ order := 1, re := .seq (.grp 1 (.chr 'a')) (.grp 2 (.chr 'b')), repl := ['\\', '2', '\\', '1'] }] ['x', 'a', 'b', 'y']).2
+    == ['x', 'b', 'a', 'y']
